@@ -161,6 +161,8 @@ def tagged_rule(ctx):
                 r = vt.Run(f, "cbor", "default", {}, {"self": obj, "t2": t2},
                            scripts={"as_literal": tagc, "CBORValidator::new": new, "visit_type": visit_type})
                 r.it.string_places = True
+                # the child-validator constructor helper is interpreted, so that the recursion state it hands to the child is observed
+                r.new_methods = set(r.new_methods) | {"new_with_recursion_state"}
                 try:
                     r.run(fi.node)
                 except absint.Unknown as e:
